@@ -1330,7 +1330,10 @@ impl Database {
             if let Some((ref target_key, ref target_val)) = pk_lookup_info {
                 let cursor = btree.cursor_seek(target_key)?;
 
-                if cursor.valid() && cursor.key()? == target_key.as_slice() {
+                if cursor.valid()
+                    && cursor.key()? == target_key.as_slice()
+                    && !crate::database::dml::mvcc_helpers::is_tombstone(cursor.value()?)
+                {
                     let key = cursor.key()?;
                     let value = cursor.value()?;
                     let user_data = get_user_data(value);
@@ -1479,6 +1482,10 @@ impl Database {
                 }
 
                 let value = cursor.value()?;
+                if crate::database::dml::mvcc_helpers::is_tombstone(value) {
+                    cursor.advance()?;
+                    continue;
+                }
                 let user_data = get_user_data(value);
                 let values = decoder.decode(key, user_data)?;
                 let mut row_values: Vec<OwnedValue> =
